@@ -10,6 +10,8 @@
 // (Process once; twice; ToEntry before Process; Process, load an unrelated module, Process), the result taken
 // after every run, so that memoised tables or errors of an earlier run cannot hide a rejection; odd argument spellings (base prefixes, leading
 // zeros, underscores, white space, junk) on the text path; seeded random longer sequences.
+// Every value handed out by NameMap / ValueMap / Names / Values is edited by the runner after every reading
+// (owned.go): the table must behave as the model says for the calls alone.
 package main
 
 import (
@@ -1424,6 +1426,9 @@ func replay(f *lib.Flags) {
 	}
 	if c.Path == "text" {
 		fmt.Printf("yang:\n%s", yangText(c))
+	}
+	if len(c.Edits) > 0 {
+		fmt.Printf("edits of the handed-out views after call i: %q\n", c.Edits)
 	}
 	fmt.Printf("input: %s  history=%q form=%q\ngo:    %s\nmodel: %s\nspec:  %s -> %s (%s)\n", c.req(), c.Hist, c.Form, g, m, s, v, what)
 	if g != m || !ok {
